@@ -33,6 +33,9 @@ def specVerdict (inp out : Hdr) : Bool × String × String :=
   else if !othersUnchanged inp out then
     let bad := (inp.filter (fun e => !(othersUnchanged [e] out))).map (fun e => str e.1)
     (false, "client-header-changed", s!"client header(s) dropped or altered: {bad}")
+  else if !Olla.Spec.C15.nothingForeign inp out then
+    let bad := (out.filter (fun e => !(Olla.Spec.C15.nothingForeign inp [e]))).map (fun e => str e.1)
+    (false, "header-not-sent-by-this-client-forwarded", s!"upstream request carries header(s) the client did not send: {bad}")
   else match firstDropped inp out with
     | some k =>
       let multi := (Olla.Spec.C15.valuesOf inp k).length > 1
